@@ -85,7 +85,7 @@ def obs (S : Sekai.Recovery.State) (accs : List Nat) (denoms : List String) (con
   let idx := join ";" ((sortBy (fun (x y : IdxEntry) => x.addr < y.addr || (x.addr == y.addr && x.key < y.key)) S.reg.idx).map
     fun e => s!"{e.addr}:{encS e.key}:{e.id}")
   let reqs := join ";" ((sortBy (fun (x y : Req) => x.id < y.id) S.reqs).map fun q => s!"{q.id}:{q.addr}:{q.verifier}:{q.tip}")
-  s!"bal={bal} sup={sup} acc={acc} sec={sec} tok={tok} byd={byd} rot={rot} hold={hold} hrw={hrw} clm={clm} val={val} cons={cons} q={showNatList (sortNat S.queue)} recs={recs} idx={idx} reqs={reqs} corrupt={bool01 S.corrupt}"
+  s!"bal={bal} sup={sup} acc={acc} sec={sec} tok={tok} byd={byd} rot={rot} hold={hold} hrw={hrw} clm={clm} val={val} cons={cons} q={showNatList (sortNat S.queue)} recs={recs} idx={idx} reqs={reqs} corrupt={bool01 S.corrupt} lastpool={S.lastPool}"
 
 def run1 (S : Sekai.Recovery.State) (o : Op) : Sekai.Recovery.State × String :=
   match apply S o with
@@ -108,6 +108,17 @@ def stepS (S : Sekai.Recovery.State) (toks : List String) : Sekai.Recovery.State
   | "init-acc" :: r =>
     match lookupNat r "a" with
     | some a => ({ S with hasAcc := fun a' => if a' = a then true else S.hasAcc a' }, "ok")
+    | none => (S, "bad-op")
+  | "init-lastpool" :: r =>
+    match lookupNat r "n" with
+    | some n => ({ S with lastPool := n }, "ok")
+    | none => (S, "bad-op")
+  | "newpool" :: r =>
+    match lookupNat r "a" with
+    | some a =>
+      match newPool S a with
+      | some S' => (S', "ok")
+      | none => (S, "err")
     | none => (S, "bad-op")
   | "init-bond" :: r =>
     match lookupInt r "n" with
